@@ -216,6 +216,9 @@ def _expand_partial_output(partial, sl_map, output_unroll_info):
     if not partial.struct.t:
         return partial  # empty tensor: nothing to expand
 
+    # blocks are rebuilt below in native order; output axes refer to the logical order
+    partial = partial.consume_transpose()
+
     config = partial.config
     backend = config.backend
     nsym = config.sym.NSYM
